@@ -62,6 +62,7 @@ def run(ctx, rep):
     r3(ctx, rep)
     r5(ctx, rep)
     r6(ctx, rep)
+    r7(ctx, rep)
 
 
 def r0(ctx, rep):
@@ -417,3 +418,63 @@ def r6(ctx, rep):
                         f'must use a fresh item')
     rep.floor('C06.R6', 'quantifier/modal slots', n, 700)
     rep.floor('C06.R6', 'witness slots (fresh item in schema)', nw, 350)
+
+
+def r7(ctx, rep):
+    """Branch.append takes mappings as well as nodes: Node.for_mapping picks the node class, and append records constants
+    for SentenceNode instances and worlds for Modal instances.  Folded over every well-formed node mapping with falsy values
+    included (world 0, designated False): the class picked carries the markers of exactly the keys present."""
+    from ..closure import node_classes
+    from ..minieval import Interp, Obj, Raised
+    m = ctx.m
+    R7 = rep.rule('C06.R7', 'node class dispatch (Node.for_mapping folded): a mapping with a sentence becomes a SentenceNode, with a world or a world pair a Modal '
+                            'node, with a designation a Designation node -- for every value of those keys, world 0 and designated False included; so what '
+                            'Branch.append records for a mapping is what it records for the node')
+    fn = m.func(COMMON, 'Node.for_mapping')
+    rep.consult(m.loc(COMMON, fn) + ' Node.for_mapping')
+    NC = node_classes(m)
+    for extra in ('UnknownNode', 'EllipsisNode'):
+        NC.setdefault(extra, type(extra, (NC['Node'],), {}))
+    keys = Obj('Key', flag='flag', world='world', world1='world1', world2='world2', sentence='sentence', designation='designated', designated='designated', ellipsis='ellipsis')
+    NodeM = Obj('Node', Key=keys, PropMap=Obj('PropMap', Closure={'flag': 'closure', 'is_flag': True}, QuitFlag={'flag': 'quit', 'is_flag': True}))
+
+    def ctor(cls):
+        def make(mapping):
+            n_ = cls()
+            n_.update(mapping)
+            return n_
+        return make
+    g = {name: ctor(c) for name, c in NC.items() if name not in ('Node', 'Modal', 'Designation')}
+    g['Node'] = NodeM
+    it = Interp(g, where='proof/common.py Node.for_mapping')
+    cases = []
+    for s_ in (None, 'S'):
+        for d_ in (None, True, False):
+            for w_ in (None, 0, 2):
+                mp = {k: v for k, v in (('sentence', s_), ('designated', d_), ('world', w_)) if v is not None}
+                if s_ is None and d_ is not None and w_ is not None:
+                    continue        # no node class of the library has a designation and a world without a sentence
+                cases.append(mp)
+    cases += [{'world1': a, 'world2': b} for a in (0, 1) for b in (0, 1)]
+    cases += [{'flag': 'closure', 'is_flag': True}, {'flag': 'quit', 'is_flag': True}, {'flag': 'other', 'is_flag': True}, {'ellipsis': True}]
+    n = 0
+    for mp in cases:
+        n += 1
+        try:
+            r = it.call(fn, [dict(mp)])
+            err = None
+        except Raised as e:
+            r, err = None, e.text
+        except (TypeError, KeyError, AttributeError) as e:
+            r, err = None, f'{type(e).__name__}: {e}'
+        want = dict(SentenceNode='sentence' in mp, Modal='world' in mp or 'world1' in mp, Designation='designated' in mp,
+                    FlagNode='flag' in mp, ClosureNode=mp.get('flag') == 'closure', QuitFlagNode=mp.get('flag') == 'quit', AccessNode='world1' in mp)
+        got = {k: isinstance(r, NC[k]) for k in want} if r is not None else None
+        ok = err is None and got == want and dict(r) == mp
+        rep.instance(R7, ok=ok, nontrivial=str(mp))
+        if not ok:
+            diff = {k: (got[k], want[k]) for k in want if got and got[k] != want[k]}
+            rep.finding(R7, f'C06.R7/for_mapping/{sorted(mp.items())}', m.loc(COMMON, fn), 'Node.for_mapping',
+                        f'the mapping {mp} becomes a {type(r).__name__ if r is not None else err}: markers (got, expected) {diff} -- Branch.append then does not '
+                        f'record its {"world" if "Modal" in diff else "sentence constants" if "SentenceNode" in diff else "kind"}, and the branch offers it again as new')
+    rep.floor('C06.R7', 'mappings', n, 20)
